@@ -301,6 +301,10 @@ TypePara ==
           /\ tags' = tags \cup (IF keep < Depth THEN {"lazy-continuation"} ELSE {}) \cup LazyTag(sep)
                           \cup (IF keep < Depth /\ KF_LazyIndented(keep, ind) THEN {"lazy-after-indented-quote-content"} ELSE {})
                           \cup NcIf(ind > 0 \/ keep < Depth \/ (tab /\ ~notable)) \cup NcSep(sep) \cup TitleLike(sep, l1)
+                          (* recorded finding: inside nested containers the tab stop is counted from where the enclosing
+                             containers' prefixes end (see OpenList) *)
+                          \cup (IF tab /\ \E i \in 2..Depth : Len(PrefixRest(SubSeq(open, 1, i - 1))) % 4 # 0
+                                THEN {"tab-stop-relative-to-container"} ELSE {})
 
 TypeAtx ==
     \E sep \in Seps, v \in Variants :
@@ -536,7 +540,7 @@ OpenList ==
                        \cup (IF SepKind(m) = "olist" THEN LazyTag(sep) ELSE {})
                        (* recorded finding: nested readers see the line without the enclosing containers' prefixes and count tab
                           stops from there; that agrees with the true columns only when the prefixes are a multiple of four wide *)
-                       \cup (IF tabpad /\ Len(PrefixRest(open)) % 4 # 0 THEN {"tab-stop-relative-to-container"} ELSE {})      \* cannot interrupt a paragraph, so it is what the reader takes for lazy text
+                       \cup (IF tabpad /\ \E i \in 2..(Depth + 1) : Len(PrefixRest(SubSeq(open, 1, i - 1))) % 4 # 0 THEN {"tab-stop-relative-to-container"} ELSE {})      \* cannot interrupt a paragraph, so it is what the reader takes for lazy text
        /\ nblocks' = IF bs THEN nblocks + 1 ELSE nblocks       \* an item that may stay empty counts against the budget
        /\ UNCHANGED <<defs, phase, target>>
 
